@@ -252,6 +252,8 @@ func verdictOf(err error) string {
 		return "VBandwidthMode"
 	case strings.HasPrefix(e, "localPort:"):
 		return "VLocalPort"
+	case strings.HasPrefix(e, "remotePort:"):
+		return "VRemotePort"
 	case strings.Contains(e, "not support health check type"):
 		return "VHealthType"
 	case strings.Contains(e, "health check path should not be empty"):
@@ -487,6 +489,16 @@ func (d *drv) valClientCase(g *gen) caseOut {
 		// Go-side monitors of the documented constraints
 		if base.Plugin.Type == "" && (base.LocalPort < 0 || base.LocalPort > 65535) {
 			d.fail("validated-port-out-of-range", "client validation accepted a localPort outside 0..65535", coqCfg(c))
+		}
+		switch x := c.(type) {
+		case *v1.TCPProxyConfig:
+			if x.RemotePort < 0 || x.RemotePort > 65535 {
+				d.fail("validated-port-out-of-range:remotePort", "client validation accepted a tcp remotePort outside 0..65535", coqCfg(c))
+			}
+		case *v1.UDPProxyConfig:
+			if x.RemotePort < 0 || x.RemotePort > 65535 {
+				d.fail("validated-port-out-of-range:remotePort", "client validation accepted a udp remotePort outside 0..65535", coqCfg(c))
+			}
 		}
 		if m := base.Transport.BandwidthLimitMode; m != "client" && m != "server" {
 			d.fail("validated-enum", "client validation accepted bandwidthLimitMode "+strconv.Quote(m), coqCfg(c))
